@@ -217,10 +217,17 @@ func (b *Broker) Send(ctx context.Context, t EventType, payload interface{}) (St
 // application, which then would invoke this method.  Another typically use-case
 // is to have all Nodes reevaluated any external configuration they might have.
 func (b *Broker) Reopen(ctx context.Context) error {
+	// Collect the graphs under the lock, but call the Nodes without it: a
+	// Node's Reopen is caller supplied code which may call back into the
+	// Broker, and a held read lock would deadlock it as soon as a writer waits.
 	b.lock.RLock()
-	defer b.lock.RUnlock()
-
+	graphs := make([]*graph, 0, len(b.graphs))
 	for _, g := range b.graphs {
+		graphs = append(graphs, g)
+	}
+	b.lock.RUnlock()
+
+	for _, g := range graphs {
 		if err := g.reopen(ctx); err != nil {
 			return err
 		}
